@@ -143,3 +143,16 @@ def tz_label(tz):
     if tz is timezone.utc:
         return "datetime:UTC"
     return type(tz).__name__
+
+
+def strip_labels(d):
+    """Drop the tzinfo label from described date-times (wall fields and UTC offset stay)."""
+    if isinstance(d, list):
+        if d and d[0] == "dt" and len(d) == 9:
+            return d[:8]
+        return [strip_labels(x) for x in d]
+    return d
+
+
+def describe_plain(obj):
+    return strip_labels(describe(obj))
